@@ -280,7 +280,10 @@ def merge_states(sts):
             fa, fb = acc.frames.get(fid, {}), s.frames.get(fid, {})
             fr = {}
             for loc in set(fa) | set(fb):
-                fr[loc] = merge(g, fb.get(loc), fa.get(loc)) if (loc in fa and loc in fb) else (fa.get(loc) or fb.get(loc))
+                try:
+                    fr[loc] = merge(g, fb.get(loc), fa.get(loc)) if (loc in fa and loc in fb) else (fa.get(loc) or fb.get(loc))
+                except Unsupported as e:
+                    raise Unsupported("%s (local %s: %r / %r)" % (e, loc, fb.get(loc), fa.get(loc)))
             frames[fid] = fr
         acc = State(simp(z3.Or(acc.guard, g)), frames)
     return acc
@@ -1015,6 +1018,9 @@ class Executor:
                     # variable are printed once; recover the operand list from the dead temporaries that
                     # were built for the aggregate (checked against the capture types of the closure body)
                     ops = self._recover_captures(fn, need, body)
+            if rv.a[0].startswith("{coroutine@"):
+                # an async fn / async block value: a coroutine in its initial state holding its captured variables
+                return VEnum("Coroutine", I(0), {-1: [self.operand(st, fid, o, fn) for o in ops]})
             return VStruct(rv.a[0], [self.operand(st, fid, o, fn) for o in ops])
         if k == "adt":
             path = strip_generics(rv.a[0])
